@@ -11,6 +11,7 @@ C->S : settings honoured - step bound per iteration, limits (paired with a defau
 from __future__ import annotations
 
 import os
+import math
 import random
 import tempfile
 
@@ -344,7 +345,20 @@ def honoured(chk, rng, n):
         outs += [a, b]
         chk.stratum("limits_custom")
         chk.count(2, ("limits", i))
-        # ---- zero accuracy and iteration cap (hook H2)
+        # ---- the step bound where air speed and ground speed differ most: a lobbed shot near its apex in a cross wind (the
+        #      velocity floor lowered so that it flies on), and a head wind stronger than the projectile's ground speed
+        for p3, cfg3 in (({"table": "G1", "bc": 0.3, "mv_fps": 400.0, "sight_in": 2.0, "look_deg": 0.0, "rel_rad": math.radians(rng.choice([88.0, 89.5])),
+                           "alt_ft": 0.0, "winds": [[40.0, 90.0, 1e8]]},
+                          {"max_calc_step_size_feet": 1.0, "cMinimumVelocity": 0.0, "cMaximumDrop": -1.0}),
+                         ({"table": "G1", "bc": 0.2, "mv_fps": 60.0, "sight_in": 2.0, "look_deg": 0.0, "rel_rad": 0.2, "alt_ft": 0.0,
+                           "winds": [[rng.choice([140.0, 200.0]), 180.0, 1e8]]},
+                          {"max_calc_step_size_feet": 2.0, "cMinimumVelocity": 0.0})):
+            tid += 1
+            o3 = scen.run_fire({"shot": p3, "cfg": cfg3, "range_ft": 120.0, "unit": "Foot", "step_ft": 60.0, "tid": tid, "fresh_calc": True}, tid)
+            outs.append(o3)
+            chk.count(1, ("step_bound", tid))
+            chk.stratum("air_speed_far_above_ground_speed")
+
         acc = rng.choice([1e-3, 1e-5, 5e-6])
         cap = rng.choice([1, 2, 5, 20])
         core.reset_world()
@@ -425,7 +439,7 @@ def run(chk: core.Check, replay=None) -> None:
         replay_names(chk, cases, td)
     chk.sample({"name_case": cases[7]})
     chk.require_strata(["cfg_settings_dict_reused", "cfg_SetGlobalStep", "cfg_ResetGlobals", "cfg_NewCalc", "cfg_Use", "cfg_nonpositive_global_step",
-                        "cfg_use_with_global_changed", "gravity_custom", "zeroing_path_settings", "limits_custom", "names_parse_unit", "names_set_pref",
+                        "cfg_use_with_global_changed", "gravity_custom", "air_speed_far_above_ground_speed", "zeroing_path_settings", "limits_custom", "names_parse_unit", "names_set_pref",
                         "names_value_with_prefix", "names_value_preferred_name", "names_config_file_preferred",
                         "names_config_file_step_units", "names_unknown"])
     chk.exhaustive = False
